@@ -29,6 +29,7 @@ ASSUMPTIONS = ['the oracle for a name is a stand-alone real monitor of the inlin
                'only variables that occur in the specification are read back']
 REAL = common.REAL_ALL
 STUBS = common.STUBS_ALL
+INTERLEAVING_MEASURE = 'distinct (monitor kind, mode, number of updates or batches) tuples'
 PROBES = ['shared_subspec', 'nested_subspec', 'unreferenced_assertion', 'pastified', 'operand_of_bounded_future', 'online', 'dense_time']
 
 
@@ -114,6 +115,7 @@ def eq_samples(a, b):
 def run(sc):
     r = Result()
     r.faults.update(sc.get('fired') or {})
+    r.interleavings.add('%s|%s|%s' % (sc.get('kind'), sc.get('mode', ''), sc.get('nbatches') or sc.get('n')))
     if sc.get('nbatches', 1) > 1:
         r.faults['batch_split'] += sc['nbatches'] - 1
     dense = sc['kind'].startswith('ct')
